@@ -5,8 +5,9 @@
    load() accepts and reads completely (4-byte header, at most 200000 words announced, all present, bytes in range);
    [loaded_words file] = those words -- the debug tables behind the image are not loaded; any other file makes load()
    throw and main return 1 without running (TbModel.tb_main, Example C13_loader_rejects).  [Current] are the constants of
-   hextb.cpp as it is now (reset over times 1..9, requests sampled from time RESET_END - 1 = 9), [Previous] those between the
-   two repairs (requests sampled only after reset), [Legacy] those of the pinned tree. *)
+   hextb.cpp as it is now (reset over times 1..9, requests sampled from time RESET_END - 1 = 9, load() clears the memory),
+   [Previous] those of earlier repaired trees (requests sampled only after reset, memory not cleared), [Legacy] those of the
+   pinned tree. *)
 From Coq Require Import ZArith List String.
 From HexVerif Require Import WMap Isa Vexp RtlSem RtlIsa TbModel TbProofs.
 From HexVerif.gen Require RtlHex.
@@ -23,15 +24,15 @@ Local Open Scope Z_scope.
    i_rst = 1 (RtlC03.rtl_no_write_in_reset -- fails if the !i_rst qualification is removed) and the request lines do not
    depend on i_rst (RtlC03.rtl_outs_in_reset). *)
 Theorem C13_boot_canonical : forall (i : init) (file : list Z) (inp : inputs),
-  let st8 := ticks Current RtlHex.design 8 (power_on i file) in
-  let st10 := ticks Current RtlHex.design 10 (power_on i file) in
-  run Current RtlHex.design 8 0 (power_on i file) inp [] = ([], inp, st8, TNoFuel) /\
-  (forall k, run Current RtlHex.design (8 + k) 0 (power_on i file) inp [] = run Current RtlHex.design k 0 st8 inp []) /\
+  let st8 := ticks Current RtlHex.design 8 (power_on Current i file) in
+  let st10 := ticks Current RtlHex.design 10 (power_on Current i file) in
+  run Current RtlHex.design 8 0 (power_on Current i file) inp [] = ([], inp, st8, TNoFuel) /\
+  (forall k, run Current RtlHex.design (8 + k) 0 (power_on Current i file) inp [] = run Current RtlHex.design k 0 st8 inp []) /\
   r_pc (t_s st8) = 0 /\ r_areg (t_s st8) = 0 /\ r_breg (t_s st8) = 0 /\ r_oreg (t_s st8) = 0 /\
-  r_mem (t_s st8) = r_mem (t_s (power_on i file)) /\ t_time st8 = 8 /\ t_exit st8 = 0 /\
+  r_mem (t_s st8) = r_mem (t_s (power_on Current i file)) /\ t_time st8 = 8 /\ t_exit st8 = 0 /\
   (file_ok file -> sys_request Current RtlHex.design (tick Current RtlHex.design st8) = (wire RtlHex.design (t_s st8) n_fdata =? 211)) /\
   r_pc (t_s st10) = 0 /\ r_areg (t_s st10) = 0 /\ r_breg (t_s st10) = 0 /\ r_oreg (t_s st10) = 0 /\
-  r_mem (t_s st10) = r_mem (t_s (power_on i file)) /\
+  r_mem (t_s st10) = r_mem (t_s (power_on Current i file)) /\
   (forall j, (j < List.length (loaded_words file))%nat -> rd (r_mem (t_s st10)) (Z.of_nat j) = nth j (loaded_words file) 0) /\
   t_time st10 = 10 /\ t_clk st10 = false.
 Proof. exact boot_canonical. Qed.
@@ -41,23 +42,32 @@ Print Assumptions C13_boot_canonical.
    time 11 is one clock edge of processor and memory from that state *)
 Theorem C13_fetch_from_zero : forall (i : init) (file : list Z) (b0 : Z) (rest : list Z),
   file_ok file -> 1 <= header file -> skipn 4 file = b0 :: rest ->
-  let st := ticks Current RtlHex.design 10 (power_on i file) in
+  let st := ticks Current RtlHex.design 10 (power_on Current i file) in
   r_pc (t_s st) = 0 /\ wire RtlHex.design (t_s st) n_fdata = b0 /\
   t_s (tick Current RtlHex.design st) = cycle RtlHex.design (t_s st).
 Proof. exact fetch_from_zero. Qed.
 Print Assumptions C13_fetch_from_zero.
 
-(* 3. the observable result (events = bytes written per stream, bytes read, exit word; input left unread; how run() ended)
+(* 3. load() clears the DUT memory before it copies the image: whatever the power-on contents, the memory the run starts
+   from is the ISA's boot memory -- the loaded words from address 0, zero everywhere else.  (Repair of hextb.cpp,
+   known_findings.json: fixed, kind power-on / how memory.  Before it, a binary that reads a word it has not written got
+   Verilator's randomised power-on contents: C13_memory_is_cleared_witness below, shipped instance tests/asm/hello_procedure.S.) *)
+Theorem C13_load_clears_memory : forall (i : init) (file : list Z),
+  r_mem (t_s (power_on Current i file)) = mem (boot (loaded_words file)).
+Proof. exact power_on_is_boot. Qed.
+Print Assumptions C13_load_clears_memory.
+
+(* 4. the observable result (events = bytes written per stream, bytes read, exit word; input left unread; how run() ended)
    is the same for every two power-on states, for every amount of fuel (loop iterations), provided the binary and input
-   are well-behaved: the ISA trace from the loaded words is defined, stays in range, a READ does not overwrite its own
-   SVC, and no word outside the loaded region is read before it is written (non-image memory differs between power-on
-   states).  The READ clause is a KNOWN FINDING, see known_findings.json (kind read-overwrites-own-svc, exhibited by
-   tools/c03.py and tools/c06.py).  The former hypothesis "the first instruction is not a system call" is gone: since the
-   repair of hextb.cpp the request of the instruction at address 0 is sampled at the last reset edge
-   (known_findings.json: fixed, kind first-instruction-svc; C13_first_instruction_svc below). *)
+   are well-behaved: the ISA trace from the loaded words on zeroed memory is defined, stays in range (in_range), and a
+   READ does not overwrite the word of its own SVC.  Nothing is assumed about which words the program reads: the former
+   clause "no word outside the image is read before it is written" is gone with the repair of load().  The READ clause is
+   a KNOWN FINDING, see known_findings.json (kind read-overwrites-own-svc, exhibited by tools/c03.py and tools/c06.py).
+   The former hypothesis "the first instruction is not a system call" is gone as well: the request of the instruction at
+   address 0 is sampled at the last reset edge (known_findings.json: fixed, kind first-instruction-svc). *)
 Theorem C13_seed_independent_partial : forall (fuel : nat) (i1 i2 : init) (file : list Z) (inp : inputs),
-  file_ok file -> well_behaved (Z.of_nat (List.length (loaded_words file))) (loaded_words file) inp ->
-  obs (run Current RtlHex.design fuel 0 (power_on i1 file) inp []) = obs (run Current RtlHex.design fuel 0 (power_on i2 file) inp []).
+  file_ok file -> well_behaved (loaded_words file) inp ->
+  obs (run Current RtlHex.design fuel 0 (power_on Current i1 file) inp []) = obs (run Current RtlHex.design fuel 0 (power_on Current i2 file) inp []).
 Proof. exact seed_independent. Qed.
 Print Assumptions C13_seed_independent_partial.
 (* _partial: what is missing is the READ clause of well_behaved (runs in which a READ overwrites the word of its own SVC).
@@ -65,49 +75,60 @@ Print Assumptions C13_seed_independent_partial.
    power-on state all the same; that is not proved, because the proof goes through the ISA run: *)
 Definition C13_seed_independent_full : Prop :=
   forall (fuel : nat) (i1 i2 : init) (file : list Z) (inp : inputs),
-  file_ok file -> well_behaved0 (Z.of_nat (List.length (loaded_words file))) (loaded_words file) inp ->
-  obs (run Current RtlHex.design fuel 0 (power_on i1 file) inp []) = obs (run Current RtlHex.design fuel 0 (power_on i2 file) inp []).
+  file_ok file -> well_behaved0 (loaded_words file) inp ->
+  obs (run Current RtlHex.design fuel 0 (power_on Current i1 file) inp []) = obs (run Current RtlHex.design fuel 0 (power_on Current i2 file) inp []).
 
-(* ... and that result is the ISA's, presented in the testbench's rhythm *)
-Theorem C13_run_is_isa_partial : forall (fuel : nat) (i : init) (file : list Z) (inp : inputs) (ws : list Z) (D : Z -> bool),
-  file_ok file -> agree D (mem (boot ws)) (r_mem (t_s (power_on i file))) ->
-  (forall n, wb_mon D n (boot ws) inp = true) ->
-  tb_view (run Current RtlHex.design fuel 0 (power_on i file) inp []) = isa_tb fuel (boot ws) inp.
+(* ... and that result is THE reference: the ISA run from boot (loaded_words file), presented in the testbench's rhythm *)
+Theorem C13_run_is_isa_partial : forall (fuel : nat) (i : init) (file : list Z) (inp : inputs),
+  file_ok file -> well_behaved (loaded_words file) inp ->
+  tb_view (run Current RtlHex.design fuel 0 (power_on Current i file) inp []) = isa_tb fuel (boot (loaded_words file)) inp.
 Proof. exact tb_is_isa_tb. Qed.
 Print Assumptions C13_run_is_isa_partial.
-(* _partial for the same reason: wb_mon contains the READ clause; without it the equation is false (C06_tb_equals_sim_full_refuted) *)
+(* _partial for the same reason: well_behaved contains the READ clause; without it the equation is false (C06_tb_equals_sim_full_refuted) *)
 
-(* 4. with the pinned constants (reset from time 2, requests sampled on every high clock phase, unqualified memory write)
+(* 5. with the pinned constants (reset from time 2, requests sampled on every high clock phase, unqualified memory write)
    the property is false: two power-on states of the same image and input with different results *)
 Theorem C13_pinned_boot_refuted : exists (i1 i2 : init) (file : list Z) (inp : inputs) (fuel : nat),
-  outcome (run Legacy RtlHex.design fuel 0 (power_on i1 file) inp []) <> outcome (run Legacy RtlHex.design fuel 0 (power_on i2 file) inp []).
+  outcome (run Legacy RtlHex.design fuel 0 (power_on Legacy i1 file) inp []) <> outcome (run Legacy RtlHex.design fuel 0 (power_on Legacy i2 file) inp []).
 Proof. exact pinned_boot_refuted. Qed.
 Print Assumptions C13_pinned_boot_refuted.
 
 (* ------------------------------------------------------------------ non-vacuity *)
 (* the refutation's witnesses and what the current constants do from the same power-on states *)
 Example C13_witnesses :
-  outcome (run Legacy RtlHex.design 200 0 (power_on (planted 13 0 false) exit7_file) no_input []) = ([Exit 7], TReturned 7) /\
-  outcome (run Legacy RtlHex.design 200 0 (power_on (planted 13 0 true) exit7_file) no_input []) = ([Exit 3553874899], TReturned (-741092397)) /\
-  outcome (run Legacy RtlHex.design 200 0 (power_on (planted 13 1 true) exit7_file) no_input []) = ([Write 211 3553874899; Exit 7], TReturned 7) /\
-  outcome (run Current RtlHex.design 200 0 (power_on (planted 13 0 false) exit7_file) no_input []) = ([Exit 7], TReturned 7) /\
-  outcome (run Current RtlHex.design 200 0 (power_on (planted 13 0 true) exit7_file) no_input []) = ([Exit 7], TReturned 7) /\
-  outcome (run Current RtlHex.design 200 0 (power_on (planted 13 1 true) exit7_file) no_input []) = ([Exit 7], TReturned 7).
+  outcome (run Legacy RtlHex.design 200 0 (power_on Legacy (planted 13 0 false) exit7_file) no_input []) = ([Exit 7], TReturned 7) /\
+  outcome (run Legacy RtlHex.design 200 0 (power_on Legacy (planted 13 0 true) exit7_file) no_input []) = ([Exit 3553874899], TReturned (-741092397)) /\
+  outcome (run Legacy RtlHex.design 200 0 (power_on Legacy (planted 13 1 true) exit7_file) no_input []) = ([Write 211 3553874899; Exit 7], TReturned 7) /\
+  outcome (run Current RtlHex.design 200 0 (power_on Current (planted 13 0 false) exit7_file) no_input []) = ([Exit 7], TReturned 7) /\
+  outcome (run Current RtlHex.design 200 0 (power_on Current (planted 13 0 true) exit7_file) no_input []) = ([Exit 7], TReturned 7) /\
+  outcome (run Current RtlHex.design 200 0 (power_on Current (planted 13 1 true) exit7_file) no_input []) = ([Exit 7], TReturned 7).
 Proof. exact legacy_witness. Qed.
 (* the hypotheses of C13_seed_independent_partial hold for `proc main() is exit(7)` as compiled by xcmp *)
 Example C13_hypotheses_satisfiable :
-  file_ok exit7_file /\ well_behaved (Z.of_nat (List.length (loaded_words exit7_file))) (loaded_words exit7_file) no_input.
+  file_ok exit7_file /\ well_behaved (loaded_words exit7_file) no_input.
 Proof. split; [exact exit7_file_ok | exact exit7_well_behaved_loaded]. Qed.
 (* a binary whose FIRST instruction is OPR SVC (EXIT 42): with the constants between the two repairs the call was never
    serviced (the run went on and exited with 9); now it exits with 42 from every power-on state, as the ISA does, and
    the binary satisfies the hypotheses of C13_seed_independent_partial *)
 Example C13_first_instruction_svc :
-  outcome (run Previous RtlHex.design 60 0 (power_on (planted 0 0 false) first_svc_file) no_input []) = ([Exit 9], TReturned 9) /\
-  outcome (run Current RtlHex.design 60 0 (power_on (planted 0 0 false) first_svc_file) no_input []) = ([Exit 42], TReturned 42) /\
-  outcome (run Current RtlHex.design 60 0 (power_on (planted 13 1 true) first_svc_file) no_input []) = ([Exit 42], TReturned 42) /\
+  outcome (run Previous RtlHex.design 60 0 (power_on Previous (planted 0 0 false) first_svc_file) no_input []) = ([Exit 9], TReturned 9) /\
+  outcome (run Current RtlHex.design 60 0 (power_on Current (planted 0 0 false) first_svc_file) no_input []) = ([Exit 42], TReturned 42) /\
+  outcome (run Current RtlHex.design 60 0 (power_on Current (planted 13 1 true) first_svc_file) no_input []) = ([Exit 42], TReturned 42) /\
   (exists a', Isa.run 5 (boot (loaded_words first_svc_file)) no_input [] = ([Exit 42], no_input, a', Exited 42)) /\
-  well_behaved 5 (loaded_words first_svc_file) no_input.
+  well_behaved (loaded_words first_svc_file) no_input.
 Proof. exact first_svc_witness. Qed.
+(* a binary that reads words outside its image (LDAC 0; OPR SVC, image of one word: EXIT takes the stack pointer from word
+   1 and the exit word from word sp + 2): before load() cleared the memory ([Previous]) the exit status was the power-on
+   contents (0 with fill 0, 5 with fill 5); now it is 0 from both, as the ISA says, and the binary satisfies the
+   hypotheses of C13_seed_independent_partial *)
+Example C13_memory_is_cleared_witness :
+  outcome (run Previous RtlHex.design 60 0 (power_on Previous (filled 0) unwritten_read_file) no_input []) = ([Exit 0], TReturned 0) /\
+  outcome (run Previous RtlHex.design 60 0 (power_on Previous (filled 5) unwritten_read_file) no_input []) = ([Exit 5], TReturned 5) /\
+  outcome (run Current RtlHex.design 60 0 (power_on Current (filled 0) unwritten_read_file) no_input []) = ([Exit 0], TReturned 0) /\
+  outcome (run Current RtlHex.design 60 0 (power_on Current (filled 5) unwritten_read_file) no_input []) = ([Exit 0], TReturned 0) /\
+  (exists a', Isa.run 5 (boot (loaded_words unwritten_read_file)) no_input [] = ([Exit 0], no_input, a', Exited 0)) /\
+  file_ok unwritten_read_file /\ well_behaved (loaded_words unwritten_read_file) no_input.
+Proof. exact clearing_witness. Qed.
 (* the loader: files without header or announcing more than 200000 words are rejected before run() starts; the symbol
    table of exit7_file (61 bytes, header 9) is not loaded *)
 Example C13_loader_rejects :
